@@ -1,3 +1,4 @@
+import sys
 from typing import Optional
 
 from django.core.cache import BaseCache, caches
@@ -38,8 +39,9 @@ def get_component_media_cache() -> BaseCache:
                 "django-components-media",
                 {
                     "TIMEOUT": None,  # No timeout
-                    "MAX_ENTRIES": None,  # No max size
-                    "CULL_FREQUENCY": 3,
+                    # No max size. NOTE: Django reads the limit from `OPTIONS` and falls back to 300 entries
+                    # for anything that is not a number, so "no limit" has to be spelled as a number.
+                    "OPTIONS": {"MAX_ENTRIES": sys.maxsize, "CULL_FREQUENCY": 3},
                 },
             )
 
